@@ -12,9 +12,15 @@ logging.disable(logging.CRITICAL)
 import warnings
 warnings.filterwarnings("ignore")
 
-# floogen prints to stdout on some error paths (RouteMap.pprint); keep the worker protocol clean
+# floogen prints to stdout on some error paths (RouteMap.pprint); workers call protect_stdout() so
+# that only emit() writes to the real stdout (the worker protocol)
 _REAL_STDOUT = sys.stdout
-sys.stdout = open(os.devnull, "w")
+
+
+def protect_stdout():
+    global _REAL_STDOUT
+    _REAL_STDOUT = sys.__stdout__
+    sys.stdout = open(os.devnull, "w")
 
 
 def emit(obj):
